@@ -16,4 +16,5 @@ import (
 	_ "verif/mon/c17"
 	_ "verif/mon/c18"
 	_ "verif/mon/c20"
+	_ "verif/mon/chist"
 )
